@@ -156,6 +156,7 @@ PROPS = {
             part('b2b', ACTIONS, 900, 12000, monitors=[M.mon_c01], props=['C01'], sub='b2b'),
             part('timeout', TIMEOUT, 250, 5000, monitors=[M.mon_c01], props=['C01'], chunk=80),
             part('midflight', ACTIONS, 400, 8000, monitors=[M.mon_c01], props=['C01'], sub='midflight'),
+            part('block', GEN, 250, 5000, monitors=[M.mon_c01], props=['C01'], chunk=80, sub='block'),
             part('flow-sqlite', FLOW, 40, 800, monitors=[M.mon_c01], props=['C01'], sub='plain', variants=1, scheds=['cur-fifo', 'cur-chaos'], snap='live', store='sqlite', restart=0.6, chunk=8),
             part('error-sqlite', ERROR, 40, 800, monitors=[M.mon_c01], props=['C01'], store='sqlite', restart=0.6, chunk=8, snap='live'),
         ],
@@ -175,6 +176,7 @@ PROPS = {
             part('b2b', ACTIONS, 900, 12000, monitors=[M.mon_c02], props=['C02'], sub='b2b'),
             part('timeout', TIMEOUT, 250, 5000, monitors=[M.mon_c02], props=['C02'], chunk=80),
             part('midflight', ACTIONS, 400, 8000, monitors=[M.mon_c02], props=['C02'], sub='midflight'),
+            part('block', GEN, 250, 5000, monitors=[M.mon_c02], props=['C02'], chunk=80, sub='block'),
             part('flow-sqlite', FLOW, 40, 800, monitors=[M.mon_c02], props=['C02'], sub='plain', variants=1, scheds=['cur-fifo', 'cur-chaos'], snap='live', store='sqlite', restart=0.6, chunk=8),
             part('error-sqlite', ERROR, 40, 800, monitors=[M.mon_c02], props=['C02'], store='sqlite', restart=0.6, chunk=8, snap='live'),
         ],
@@ -192,6 +194,7 @@ PROPS = {
             part('b2b', ACTIONS, 900, 12000, monitors=[M.mon_c03], props=['C03'], sub='b2b'),
             part('timeout', TIMEOUT, 250, 5000, monitors=[M.mon_c03], props=['C03'], chunk=80),
             part('midflight', ACTIONS, 400, 8000, monitors=[M.mon_c03], props=['C03'], sub='midflight'),
+            part('block', GEN, 250, 5000, monitors=[M.mon_c03], props=['C03'], chunk=80, sub='block'),
             part('flow-sqlite', FLOW, 40, 800, monitors=[M.mon_c03], props=['C03'], sub='plain', variants=1, scheds=['cur-fifo', 'cur-chaos'], snap='rows', store='sqlite', restart=0.6, chunk=8),
             part('error-sqlite', ERROR, 40, 800, monitors=[M.mon_c03], props=['C03'], store='sqlite', restart=0.6, chunk=8, snap='rows'),
         ],
@@ -211,6 +214,7 @@ PROPS = {
             part('b2b', ACTIONS, 900, 12000, monitors=[M.mon_c08], props=['C08'], sub='b2b'),
             part('timeout', TIMEOUT, 250, 5000, monitors=[M.mon_c08], props=['C08'], chunk=80),
             part('midflight', ACTIONS, 400, 8000, monitors=[M.mon_c08], props=['C08'], sub='midflight'),
+            part('block', GEN, 250, 5000, monitors=[M.mon_c08], props=['C08'], chunk=80, sub='block'),
             part('flow-sqlite', FLOW, 40, 800, monitors=[M.mon_c08], props=['C08'], sub='plain', variants=1, scheds=['cur-fifo', 'cur-chaos'], snap='live', store='sqlite', restart=0.6, chunk=8),
             part('error-sqlite', ERROR, 40, 800, monitors=[M.mon_c08], props=['C08'], store='sqlite', restart=0.6, chunk=8, snap='live'),
             part('twoack', ACTIONS, 100, 2000, monitors=[M.mon_c08, M.mon_c08_mirror], props=['C08'], sub='matrix', mirror=True, chunk=50),
